@@ -15,7 +15,7 @@ Bind(o, a) ==
     /\ procs = o.procs /\ nextpid = Len(o.w) + 1 /\ sem = o.sem /\ rs = o.rs
     /\ dirty = ToSet(o.dirty) /\ inq = o.inq /\ outq = o.outq /\ w = PadW(o.w)
     /\ sigs = o.sigs /\ now = o.now /\ ndup = 0 /\ supd = FALSE /\ scand = FALSE
-    /\ raised = o.raised /\ act = a
+    /\ raised = o.raised /\ scanning = o.scanning /\ snap = o.snap /\ act = a
 
 MonInit == /\ tid \in 1..Len(Obs) /\ l = 1
            /\ Bind(Obs[tid][1].state, Obs[tid][1].act)
@@ -27,5 +27,5 @@ MonNext == /\ l < Len(Obs[tid]) /\ l' = l + 1 /\ tid' = tid
                  /\ procs' = o.procs /\ nextpid' = Len(o.w) + 1 /\ sem' = o.sem /\ rs' = o.rs
                  /\ dirty' = ToSet(o.dirty) /\ inq' = o.inq /\ outq' = o.outq /\ w' = PadW(o.w)
                  /\ sigs' = o.sigs /\ now' = o.now /\ ndup' = 0 /\ supd' = FALSE /\ scand' = FALSE
-                 /\ raised' = o.raised /\ act' = a
+                 /\ raised' = o.raised /\ scanning' = o.scanning /\ snap' = o.snap /\ act' = a
 =============================================================================
